@@ -2510,6 +2510,29 @@ impl VerifiedKeyspaceName {
     }
 }
 
+/// Verification harness: the same defaults the crate's own unit tests use.
+#[cfg(scylla_verif)]
+pub(crate) fn verif_connection_config() -> ConnectionConfig {
+    ConnectionConfig {
+        local_ip_address: None,
+        shard_aware_local_port_range: ShardAwarePortRange::EPHEMERAL_PORT_RANGE,
+        compression: None,
+        tcp_socket_options: TcpSocketOptions::default(),
+        timestamp_generator: None,
+        event_sender: None,
+        tls_provider: None,
+        connect_timeout: std::time::Duration::from_secs(5),
+        default_consistency: Default::default(),
+        authenticator: None,
+        address_translator: None,
+        write_coalescing_delay: Some(WriteCoalescingDelay::SmallNondeterministic),
+        keepalive_interval: None,
+        keepalive_timeout: None,
+        tablet_sender: None,
+        identity: SelfIdentity::default(),
+    }
+}
+
 #[cfg(test)]
 mod tests {
     use crate::frame::protocol_features::{
